@@ -575,7 +575,23 @@ func (mc *machine) apply(step int, op Op) error {
 			}
 			return nil
 		case "newfield":
+			// every NewField call hands out a new, empty, mutable value that is
+			// independent of the message and of every other NewField result: the
+			// first result is written to before the second is looked at
 			return mc.judge(what, tri(func(s int) string {
+				first := h.m[s].NewField(fd)
+				switch {
+				case fd.IsList() && fd.Message() != nil:
+					first.List().AppendMutable()
+				case fd.IsList():
+					first.List().Append(fd.Default())
+				case fd.IsMap() && fd.MapValue().Message() != nil:
+					first.Map().Mutable(fd.MapKey().Default().MapKey())
+				case fd.IsMap():
+					first.Map().Set(fd.MapKey().Default().MapKey(), fd.MapValue().Default())
+				case fd.Message() != nil:
+					first.Message().SetUnknown(protoreflect.RawFields{0xf8, 0x7f, 0x2a})
+				}
 				v := h.m[s].NewField(fd)
 				switch {
 				case fd.IsList():
@@ -1096,6 +1112,7 @@ func runC08(ctx *Ctx) {
 		}, func(c *Case) error { return checkC08(ctx, c) })
 	}
 	runExhaustive(ctx)
+	runC08Lend(ctx)
 }
 
 func (mc *machine) step(i int, op Op) error {
@@ -1113,6 +1130,9 @@ func (mc *machine) step(i int, op Op) error {
 }
 
 func checkC08(ctx *Ctx, c *Case) error {
+	if c.Sub == "lend" {
+		return checkC08Lend(ctx, c)
+	}
 	t, err := mustType(c.Type)
 	if err != nil {
 		return err
